@@ -5,6 +5,7 @@ import TwProofs.Lemmas.Sort
 
 import TwProofs.C04
 import TwProofs.Lemmas.TextVars
+import TwProofs.Lemmas.TextDot
 
 namespace Tw.C12
 open Tw
@@ -207,6 +208,50 @@ theorem root_value_prints (custom : List ((VType × Bytes) × Nat)) (data : List
   have := vitems_render custom [.print g1 k g2] ⟨hg1, hg2, hk, trivial⟩ (by simp [vpieces, evalFuel]) data env h
     (by simp [vpieces, holesBound, hget])
   simpa [vitemsSrc, VItem.src, vpieces, fill, hget] using this
+
+/-- **a field of a root value prints as its converted value, from the source bytes on**: for every
+    data map with distinct keys, every entry `(k, g)` whose value converts to an object (a struct,
+    a string-keyed map, a pointer to one) and every identifier `f` that is a key of that object — as
+    written, or with its first letter in upper case (the exported Go field `Name` is reachable as
+    `name`) — the template `{{ k.f }}`, with any white space inside the braces, renders the printed
+    converted value of that field.  Lexer (`lex_dot`), parser (`parse_dot_stmt`) and evaluator composed. -/
+theorem field_value_prints (custom : List ((VType × Bytes) × Nat)) (data : List (Bytes × GoVal)) (env : Env) (hd : KeysDistinct data)
+    (h : envFromMap data = .ok env) (k : Bytes) (g : GoVal) (hm : (k, g) ∈ data) (hk : isName k) (f : Bytes) (hf : isName f)
+    (g1 g2 : Bytes) (hg1 : allWs g1) (hg2 : allWs g2) (kvs : List (Bytes × Val)) (hobj : nativeToObject g = some (.obj kvs))
+    (v : Val) (hv : mapGet kvs f = some v ∨ (mapGet kvs f = none ∧ mapGet kvs (toUpper (f.take 1) ++ f.drop 1) = some v)) :
+    evaluateStringPure custom (dotSrc g1 k f g2) data = .ok v.toStr := by
+  obtain ⟨v0, hv0, hget⟩ := data_is_visible data env hd h k g hm
+  have hv0' : v0 = .obj kvs := by rw [hobj] at hv0; cases hv0; rfl
+  subst hv0'
+  obtain ⟨prog, t2, t3, t4, hp, hs⟩ := parse_dot_source g1 k f g2 hg1 hg2 hk hf
+  have hfne : f.isEmpty = false := by
+    obtain ⟨⟨c, cv, hcv, _⟩, _, _⟩ := hf
+    rw [hcv]; rfl
+  have hidx : ∀ line, objIndex kvs f line = .ok v := by
+    intro line
+    unfold objIndex
+    rcases hv with hv | ⟨hn, hv⟩
+    · rw [hv]
+    · rw [hn]
+      simp only [hfne, Bool.false_eq_true, if_false, hv]
+  unfold evaluateStringPure envOrFail
+  rw [hp]
+  simp only [h, hs]
+  rw [show evalFuel = (evalFuel - 4) + 1 + 1 + 1 + 1 from by decide, evalProg_cons, evalStmt_succ]
+  simp only [stmtBody, calleesAt_expr]
+  simp only [evalExpr, hget, hidx, Res.bind_ok]
+  rw [evalProg_nil]
+  simp [resToOut]
+
+example : evaluateStringPure [] (b "{{ user.name }}") [(b "user", .struct [(b "Name", true, .str (b "Ann")), (b "age", false, .int 3)])] =
+    .ok (b "Ann") := by
+  have := field_value_prints [] [(b "user", .struct [(b "Name", true, .str (b "Ann")), (b "age", false, .int 3)])]
+    [[(b "user", .obj [(b "Name", .str (b "Ann"))])]] (by simp [KeysDistinct]) (by rfl) (b "user")
+    (.struct [(b "Name", true, .str (b "Ann")), (b "age", false, .int 3)]) (by simp) (by decide) (b "name") (by decide)
+    [32] [32] (by decide) (by decide) [(b "Name", .str (b "Ann"))] (by rfl) (.str (b "Ann")) (Or.inr ⟨by rfl, by rfl⟩)
+  have hs : dotSrc [32] (b "user") (b "name") [32] = b "{{ user.name }}" := by decide
+  rw [hs] at this
+  exact this
 
 /-! non-vacuity -/
 
